@@ -49,25 +49,27 @@ def synth_dump(rng, fault=None):
         L.append((fmt_a % start) + " <gigue_int_start>:")
     for i in range(n):
         a = start + 4 * i
-        if i == ret_idx and fault != "no_ret":
+        if i == ret_idx and fault not in ("no_ret", "ret_after_main"):
             L.append("    %x:\t00008067          \tret" % a)
         else:
             m = rng.choice(["addi\tsp,sp,-88", "sd\ts0,0(sp)", "auipc\tra,0x5", "jalr\t-1242(ra)", "nop"])
             L.append("    %x:\t%08x          \t%s" % (a, rng.getrandbits(32), m))
-    for _ in range(rng.randrange(0, 3) if fault != "no_ret" else 0):       # later rets must be ignored
+    for _ in range(rng.randrange(0, 3) if fault not in ("no_ret", "ret_after_main") else 0):   # later rets must be ignored
         L.append("    %x:\t00008067          \tret" % (start + 4 * (n + 3)))
     L.append("")
     L.append("%016x <gigue_jit_start>:" % (start + 4 * n))
     if fault != "no_end":
         L.append(rng.choice(["%016x", "%x"]) % end + " <main>:")
         L.append("    %x:\t00000000          \tunimp" % end)
+    if fault == "ret_after_main":       # the only ret of the dump lies after the end marker: it is not the interpreter's
+        L.append("    %x:\t00008067          \tret" % (end + 4 * rng.randrange(1, 9)))
     for _ in range(rng.randrange(0, 4)):
         L.append(rng.choice(["    %x:\t00008067          \tret" % rng.getrandbits(32), "..."]) if fault != "no_ret" else "...")
     nl = rng.choice(["\n", "\n", "\r\n"])
     text = nl.join(L) + (nl if rng.random() < .8 else "")
     data = text.encode()
     exp = dict(start=start, ret=start + 4 * ret_idx, end=end - 4)
-    if fault in ("no_start", "no_ret", "no_end"):
+    if fault in ("no_start", "no_ret", "no_end", "ret_after_main"):
         exp = None
     elif fault == "truncated":
         cut = rng.randrange(0, len(data))
@@ -91,7 +93,7 @@ def synth_dump(rng, fault=None):
     return data, exp
 
 
-DUMP_FAULTS = ["no_start", "no_ret", "no_end", "truncated", "garbage", "nonhex_label", "ret_no_addr", "empty",
+DUMP_FAULTS = ["no_start", "no_ret", "no_end", "ret_after_main", "truncated", "garbage", "nonhex_label", "ret_no_addr", "empty",
                "absent", "non_utf8"]
 
 
